@@ -518,9 +518,10 @@ func (w *tw) Write(p []byte) (int, error) {
 	return len(p), nil
 }
 
+// (Write and WriteString are indistinguishable, as io.StringWriter demands)
 func (w *tw) WriteString(s string) (int, error) {
-	traceLog = append(traceLog, 95, len(s))
-	w.log = append(w.log, "S:"+s)
+	traceLog = append(traceLog, 96, len(s))
+	w.log = append(w.log, "W:"+s)
 	return len(s), nil
 }
 `
